@@ -133,8 +133,13 @@ impl<B: Bitmap> MmapRegionBuilder<B> {
         }
 
         // Forbid MAP_FIXED, as it doesn't make sense in this context, and is pretty dangerous
-        // in general.
-        if self.flags & libc::MAP_FIXED != 0 {
+        // in general. The same goes for its MAP_FIXED_NOREPLACE variant: the address hint passed
+        // to mmap() below is always NULL, so the flag would request a mapping at address 0.
+        #[cfg(any(target_os = "linux", target_os = "android"))]
+        let fixed_flags = libc::MAP_FIXED | libc::MAP_FIXED_NOREPLACE;
+        #[cfg(not(any(target_os = "linux", target_os = "android")))]
+        let fixed_flags = libc::MAP_FIXED;
+        if self.flags & fixed_flags != 0 {
             return Err(Error::MapFixed);
         }
 
